@@ -139,3 +139,57 @@ theorem div_lt_of_div_lt {xp q q' : ℕ} (hq : 0 < q) (h : xp / q < q') : xp / q
     _ ≤ q * q' := Nat.mul_le_mul_left q h1
 
 end Pc
+
+namespace Pc
+
+/-! ### more quotient bounds for the fast_div64 call sites -/
+
+/-- `min x hi ≤ in_between(lo, x, hi)` when `lo ≤ hi` -/
+theorem min_le_inBetween (lo x hi : ℤ) (h : lo ≤ hi) : min x hi ≤ inBetween lo x hi := by
+  unfold inBetween
+  split
+  · rename_i h1
+    simp only [Bool.or_eq_true, decide_eq_true_eq] at h1
+    rcases h1 with h1 | h1
+    · exact le_trans (min_le_left _ _) (le_of_lt h1)
+    · omega
+  · split
+    · exact min_le_right _ _
+    · exact min_le_left _ _
+
+/-- two primes beyond `√z`: `p > ⌊√z⌋`, `q ≥ p` ⇒ `p·q > z` -/
+theorem lt_mul_of_sqrt_lt {z p q : ℕ} (hp : Nat.sqrt z < p) (hq : p ≤ q) : z < p * q := by
+  have h1 : z < (Nat.sqrt z + 1) * (Nat.sqrt z + 1) := Nat.lt_succ_sqrt z
+  calc z < (Nat.sqrt z + 1) * (Nat.sqrt z + 1) := h1
+    _ ≤ p * q := Nat.mul_le_mul hp (le_trans hp hq)
+
+/-- `x / (p·q) < 2^64` when `p, q > ⌊x^(1/4)⌋` and `x < 2^128` (the A formula) -/
+theorem div_div_lt_of_root4_lt {x p q : ℕ} (hx : x < 2 ^ 128) (hp : irootN 4 x < p) (hq : p < q) :
+    x / p / q < 2 ^ 64 := by
+  set r := irootN 4 x with hr
+  have hlt : x < (r + 1) ^ 4 := (irootN_spec 4 x (by norm_num)).2
+  have hr32 : r < 2 ^ 32 := root_lt_of_lt_pow (irootN_spec 4 x (by norm_num)).1 (by
+    calc x < 2 ^ 128 := hx
+      _ = (2 ^ 32) ^ 4 := by norm_num)
+  have h1 : (r + 1) * (r + 1) ≤ p * q := Nat.mul_le_mul hp (by omega)
+  have hpos : 0 < (r + 1) * (r + 1) := by positivity
+  rw [Nat.div_div_eq_div_mul]
+  calc x / (p * q) ≤ x / ((r + 1) * (r + 1)) := Nat.div_le_div_left h1 hpos
+    _ < (r + 1) * (r + 1) := by
+        rw [Nat.div_lt_iff_lt_mul hpos]
+        calc x < (r + 1) ^ 4 := hlt
+          _ = (r + 1) * (r + 1) * ((r + 1) * (r + 1)) := by ring
+    _ ≤ 2 ^ 32 * 2 ^ 32 := Nat.mul_le_mul hr32 hr32
+    _ = 2 ^ 64 := by norm_num
+
+/-- `xp / q ≤ ⌊√xp⌋` when `q > ⌊√xp⌋` (clustered easy leaves) -/
+theorem div_le_sqrt_of_sqrt_lt {xp q : ℕ} (h : Nat.sqrt xp < q) : xp / q ≤ Nat.sqrt xp := by
+  have hq : 0 < q := by omega
+  have h1 : xp < (Nat.sqrt xp + 1) * (Nat.sqrt xp + 1) := Nat.lt_succ_sqrt xp
+  have h2 : xp / q < Nat.sqrt xp + 1 := by
+    rw [Nat.div_lt_iff_lt_mul hq]
+    calc xp < (Nat.sqrt xp + 1) * (Nat.sqrt xp + 1) := h1
+      _ ≤ (Nat.sqrt xp + 1) * q := Nat.mul_le_mul_left _ h
+  omega
+
+end Pc
